@@ -1,5 +1,5 @@
 ; ext.smt2 - C06/C07/C16: extension identifiers (RFC 5280 4.2, RFC 6960 4.2.2.2.1, CommonPKI 2.0 T27) and value specs
-; requires der.smt2 x509.smt2
+; requires der.smt2 x509.smt2 deepbase.smt2
 (define-fun oid4e ((a Int) (b Int) (c Int) (d Int)) OidV (osnoc (osnoc (osnoc (osnoc onil a) b) c) d))
 ; index = cert.ExtensionOid: 0 SKI, 1 KU, 2 EKU, 3 AKI, 4 BC, 5 SAN, 6 CP, 7 NameConstraints, 8 CRLDP, 9 AIA, 10 CRLNumber, 11 admission, 12 ocsp-nocheck
 (define-fun specExtOid ((i Int)) OidV
@@ -19,10 +19,8 @@
 (define-fun-rec catNames ((v (View Any)) (i Int) (acc Bytes)) Bytes
   (ite (or (< i 0) (>= i (vlen v))) acc (catNames v (+ i 1) (bcat acc (gnDer (select (varr v) (+ (voff v) i)))))))
 ; deep value of a []byte holding the given bytes / of an AuthorityKeyIdentifier struct holding the given key identifier
-(declare-fun deepBytes (Bytes) Deep)
 (declare-fun deepS_S_cert_AuthorityKeyIdentifier (Deep) Deep)
 (define-fun akiDeep ((keyid Bytes)) Deep (deepS_S_cert_AuthorityKeyIdentifier (deepBytes keyid)))
-(declare-fun deepOid (OidV) Deep)
 ; authority information access (RFC 5280 4.2.2.1): SEQUENCE OF SEQUENCE { id-ad-ocsp, accessLocation }
 ; usetype github.com/wokdav/gopki/generator/cert.AccessDescription
 (define-fun oidAdOcsp () OidV (osnoc (osnoc (osnoc (osnoc (osnoc (oid4e 1 3 6 1) 5) 5) 7) 48) 1))
@@ -32,7 +30,6 @@
 ; ---- CommonPKI AdmissionSyntax (C16)
 ; usetype github.com/wokdav/gopki/generator/cert.Admissions
 ; usetype github.com/wokdav/gopki/generator/cert.ProfessionInfo
-(declare-fun deepv_String (String) Deep)
 (define-fun-rec catItems ((v (View String)) (i Int) (acc Bytes)) Bytes
   (ite (or (< i 0) (>= i (vlen v))) acc (catItems v (+ i 1) (bcat acc (derField (deepv_String (select (varr v) (+ (voff v) i))) "utf8")))))
 (declare-fun piDer (S_cert_ProfessionInfo) Bytes)    ; DER of one ProfessionInfo (defined by ProfessionInfo.marshal's contract)
@@ -43,8 +40,6 @@
   (ite (or (< i 0) (>= i (vlen v))) acc (catAx v (+ i 1) (bcat acc (axDer (select (varr v) (+ (voff v) i)))))))
 ; basic constraints: the DER of the struct {IsCa bool optional; Pathlen int optional} as encoding/asn1 writes it
 (declare-fun deepS_S_cert_BasicConstraints (Deep Deep) Deep)
-(declare-fun deepv_Bool (Bool) Deep)
-(declare-fun deepv_Int (Int) Deep)
 (define-fun bcDer ((ca Bool) (pathLen Int)) Bytes (der (deepS_S_cert_BasicConstraints (deepv_Bool ca) (deepv_Int pathLen))))
 ; RFC 5280 4.2.1.9: BasicConstraints ::= SEQUENCE { cA BOOLEAN DEFAULT FALSE, pathLenConstraint INTEGER (0..MAX) OPTIONAL }
 (define-fun bcSpec ((ca Bool) (hasLen Bool) (n Int)) Bytes
